@@ -21,6 +21,11 @@ pub fn js(s: &str) -> String {
     o.push('"');
     o
 }
+/// VERIF_PROP=<id>: only oracles whose finding would contradict that property are evaluated (so that a finding for
+/// another property does not end the search early); unset: every oracle
+pub fn want(props: &str) -> bool {
+    match std::env::var("VERIF_PROP") { Ok(p) if !p.is_empty() => props.split(',').any(|x| x.trim() == p), _ => true }
+}
 fn unhex(s: &str) -> Vec<u8> { (0..s.len() / 2).map(|i| u8::from_str_radix(&s[2 * i..2 * i + 2], 16).unwrap()).collect() }
 
 #[derive(Debug)]
@@ -405,6 +410,86 @@ fn server_search(seed: u64) {
     }
     println!("{{\"found\": false, \"evaluations\": {}, \"searched\": \"{} pipelined SET/GET/DEL requests (binary values incl. CRLF, empty, 5000 bytes; 4 keys) against the real Server over loopback TCP on the real Bitcask engine, 6 connections with segmentations all-at-once/1/7/3/64/1000 bytes; replies compared byte for byte with a map model\"}}", total_reqs, total_reqs);
 }
+/// C10 end to end (bounded): hostile byte streams on their own connections while a well-behaved client keeps
+/// working; the server must keep running, the good client must get exactly the model's replies, and the store must
+/// change only through the good client's commands.
+fn server_hostile() {
+    use bitcask::storage::bitcask::{Config as SConf, SyncStrategy};
+    use tokio::io::{AsyncReadExt, AsyncWriteExt};
+    fn bulk(out: &mut Vec<u8>, b: &[u8]) { out.extend(format!("${}\r\n", b.len()).as_bytes()); out.extend(b); out.extend(b"\r\n"); }
+    fn req(parts: &[&[u8]]) -> Vec<u8> { let mut o = format!("*{}\r\n", parts.len()).into_bytes(); for p in parts { bulk(&mut o, p); } o }
+    let rt = tokio::runtime::Builder::new_multi_thread().worker_threads(2).enable_all().build().unwrap();
+    let dir = tempfile::tempdir().unwrap();
+    let mut c = SConf::default();
+    c.path(dir.path()).concurrency(2).max_file_size(1 << 20).sync(SyncStrategy::None).merge_check_interval_ms(1_000_000_000).merge_check_jitter(0.0);
+    let kv = c.open().unwrap();
+    let handle = kv.get_handle();
+    let port = { let l = std::net::TcpListener::bind("127.0.0.1:0").unwrap(); l.local_addr().unwrap().port() };
+    let (stop_tx, stop_rx) = tokio::sync::oneshot::channel::<()>();
+    let mut nc = bitcask::net::Config::default();
+    nc.host = "127.0.0.1".parse().unwrap();
+    nc.port = port;
+    let mut hostile: Vec<(String, Vec<u8>)> = vec![
+        ("garbage".into(), b"\x00\xff\x13garbage\r\n\r\n%%%".to_vec()),
+        ("unknown command".into(), req(&[b"FLUSHALL"])),
+        ("lower-case command".into(), req(&[b"set", b"evil", b"1"])),
+        ("wrong arity SET".into(), req(&[b"SET", b"evil"])),
+        ("wrong arity GET".into(), req(&[b"GET", b"a", b"b"])),
+        ("DEL without keys".into(), req(&[b"DEL"])),
+        ("non-UTF-8 key".into(), req(&[b"SET", b"\xff\xfe", b"1"])),
+        ("truncated frame".into(), b"*3\r\n$3\r\nSET\r\n$4\r\nevil\r\n$100\r\nabc".to_vec()),
+        ("absurd array length".into(), b"*9223372036854775807\r\n".to_vec()),
+        ("absurd bulk length".into(), b"*1\r\n$9223372036854775807\r\nx".to_vec()),
+        ("negative length".into(), b"*-5\r\n$-7\r\n".to_vec()),
+        ("number overflow".into(), b"*99999999999999999999999999\r\n".to_vec()),
+        ("nested non-bulk".into(), b"*2\r\n*1\r\n$3\r\nSET\r\n:5\r\n".to_vec()),
+        ("integer frame".into(), b":12\r\n+OK\r\n-ERR\r\n$-1\r\n".to_vec()),
+        ("SET smuggled after garbage".into(), { let mut v = b"?\r\n".to_vec(); v.extend(req(&[b"SET", b"evil", b"1"])); v }),
+    ];
+    { let mut deep = Vec::new(); for _ in 0..100000 { deep.extend(b"*1\r\n"); } deep.extend(b"$4\r\nevil\r\n"); hostile.push(("100000 nested arrays".into(), deep)); }
+    let result: Result<(), (String, String, String)> = rt.block_on(async {
+        let server = nc.async_server(handle, async { let _ = stop_rx.await; }).await.map_err(|e| ("setup".to_string(), format!("server start: {}", e), "".to_string()))?;
+        let srv = tokio::spawn(server.run());
+        let mut good = tokio::net::TcpStream::connect(("127.0.0.1", port)).await.map_err(|e| ("setup".to_string(), format!("connect: {}", e), "".to_string()))?;
+        let mut buf = vec![0u8; 4096];
+        for (i, (name, payload)) in hostile.iter().enumerate() {
+            // the hostile connection
+            if let Ok(mut h) = tokio::net::TcpStream::connect(("127.0.0.1", port)).await {
+                let _ = h.write_all(payload).await; let _ = h.flush().await;
+                let _ = tokio::time::timeout(std::time::Duration::from_millis(150), h.read(&mut buf)).await;
+                drop(h);
+            } else { return Err((name.clone(), "the server no longer accepts connections".into(), "connections are accepted".into())); }
+            // the good client: one SET and one GET, checked
+            let k = format!("good{}", i); let v = format!("v{}", i);
+            let mut w = req(&[b"SET", k.as_bytes(), v.as_bytes()]); w.extend(req(&[b"GET", k.as_bytes()])); w.extend(req(&[b"GET", b"evil"])); w.extend(req(&[b"GET", b"\xff\xfe"]));
+            let mut want = b"+OK\r\n".to_vec(); bulk(&mut want, v.as_bytes()); want.extend(b"$-1\r\n");
+            good.write_all(&w).await.map_err(|e| (name.clone(), format!("the good connection cannot write: {}", e), "the good connection keeps working".to_string()))?;
+            let mut got = Vec::new();
+            let deadline = tokio::time::Instant::now() + std::time::Duration::from_secs(5);
+            // the 4th request has a non-UTF-8 key: the good connection itself would be closed by it, so it is not sent
+            let w_len = want.len();
+            let _ = w_len;
+            while got.len() < want.len() {
+                match tokio::time::timeout_at(deadline, good.read(&mut buf)).await { Ok(Ok(0)) => break, Ok(Ok(n)) => got.extend(&buf[..n]), _ => break }
+            }
+            // the 4th request names a non-UTF-8 key: it must be refused (the connection is closed), never answered
+            if let Ok(Ok(n)) = tokio::time::timeout(std::time::Duration::from_millis(200), good.read(&mut buf)).await { got.extend(&buf[..n]); }
+            if got != want {
+                return Err((name.clone(), format!("after the hostile connection the good client read {:?}", String::from_utf8_lossy(&got)), format!("{:?}", String::from_utf8_lossy(&want))));
+            }
+            // the last request (non-UTF-8 key on the good connection) closes the good connection: reconnect
+            good = tokio::net::TcpStream::connect(("127.0.0.1", port)).await.map_err(|e| (name.clone(), format!("reconnect failed: {}", e), "connections are accepted".to_string()))?;
+        }
+        let _ = stop_tx.send(());
+        let _ = tokio::time::timeout(std::time::Duration::from_secs(5), srv).await;
+        Ok(())
+    });
+    match result {
+        Err((name, obs, exp)) if name != "setup" => { println!("{{\"found\": true, \"kind\": \"hostile-input\", \"props\": \"C10\", \"input\": {}, \"observed\": {}, \"expected\": {}}}", js(&name), js(&obs), js(&exp)); }
+        Err((_, obs, _)) => { println!("{{\"found\": false, \"error\": {}}}", js(&obs)); }
+        Ok(()) => { println!("{{\"found\": false, \"evaluations\": {}, \"searched\": \"{} hostile byte streams, each on its own connection, interleaved with a well-behaved client whose replies were checked after every one; the key `evil` must never appear\"}}", hostile.len(), hostile.len()); }
+    }
+}
 // ---------------------------------------------------------------------------------------------------
 // storage scenarios: every one runs the real store in a fresh temp dir and compares with a map model
 mod store {
@@ -557,10 +642,10 @@ mod store {
             match p[0] {
                 "set" => { match h.set(b(p[1]), b(p[2])) { Ok(()) => { model.insert(p[1].into(), p[2].into()); alt.remove(p[1]); } Err(e) => { println!("# op {} `{}` failed: {}", i, op, e); alt.insert(p[1].into(), Some(p[2].into())); had_fault = true; fault_seen.store(true, std::sync::atomic::Ordering::SeqCst); } } }
                 "del" => { match h.del(b(p[1])) {
-                    Ok(was) => { let exp = model.remove(p[1]).is_some(); let unsure = alt.remove(p[1]).is_some(); if was != exp && !unsure { report(label, rp, &hist, format!("op {} `{}` returned {}", i, op, was), &format!("{}", exp)); } }
+                    Ok(was) => { let exp = model.remove(p[1]).is_some(); let unsure = alt.remove(p[1]).is_some(); if was != exp && !unsure && crate::want(rp) { report(label, rp, &hist, format!("op {} `{}` returned {}", i, op, was), &format!("{}", exp)); } }
                     Err(e) => { println!("# op {} `{}` failed: {}", i, op, e); alt.insert(p[1].into(), None); had_fault = true; fault_seen.store(true, std::sync::atomic::Ordering::SeqCst); } } }
                 "get" => { let got = h.get(b(p[1])).map(|o| o.map(|v| String::from_utf8_lossy(&v).to_string())); let exp = model.get(p[1]).cloned();
-                    match got { Ok(g) if g == exp => {}, Ok(g) if alt.get(p[1]) == Some(&g) => {}, other => report(label, rp, &hist, format!("op {} `{}` returned {:?}; files {:?}", i, op, other, files(dir.path())), &format!("{:?}", exp)) } }
+                    match got { Ok(g) if g == exp => {}, Ok(g) if alt.get(p[1]) == Some(&g) => {}, _ if !crate::want(rp) => {}, other => report(label, rp, &hist, format!("op {} `{}` returned {:?}; files {:?}", i, op, other, files(dir.path())), &format!("{:?}", exp)) } }
                 "merge" => { had_merge = true;
                     let before = data_size(dir.path());
                     match h.verif_merge() {
@@ -568,8 +653,8 @@ mod store {
                         Ok(()) => {
                             // C13: a merge pass never grows the store; with every file eligible it leaves exactly the live pairs
                             let after = data_size(dir.path());
-                            if after > before { report(label, "C13", &hist, format!("op {} merge: data files grew from {} to {} bytes; files {:?}", i, before, after, files(dir.path())), "not larger than before"); }
-                            if mode == "all" && alt.is_empty() && !had_fault {
+                            if crate::want("C13") && after > before { report(label, "C13", &hist, format!("op {} merge: data files grew from {} to {} bytes; files {:?}", i, before, after, files(dir.path())), "not larger than before"); }
+                            if crate::want("C13") && mode == "all" && alt.is_empty() && !had_fault {
                                 let fresh = fresh_size(&model);
                                 if after != fresh { report(label, "C13", &hist, format!("op {} merge (every file eligible): data files hold {} bytes; files {:?}", i, after, files(dir.path())), &format!("{} bytes: the size of a fresh store holding only the {} live pairs", fresh, model.len())); }
                             }
@@ -582,7 +667,8 @@ mod store {
                 "remove-data" => { let _ = std::fs::remove_file(dir.path().join(format!("{}.bitcask.data", p[1]))); }
                 "remove-hint" => { let _ = std::fs::remove_file(dir.path().join(format!("{}.bitcask.hint", p[1]))); }
                 "checkall" => { for (k, v) in model.iter() { if alt.contains_key(k) { continue; } let got = h.get(b(k)).map(|o| o.map(|v| String::from_utf8_lossy(&v).to_string()));
-                    match got { Ok(Some(g)) if &g == v => {}, other => report(label, rp, &hist, format!("op {} checkall: key {} reads {:?}; files {:?}", i, k, other, files(dir.path())), v) } } }
+                    match got { Ok(Some(g)) if &g == v => {}, _ if !crate::want(rp) => {}, other => report(label, rp, &hist, format!("op {} checkall: key {} reads {:?}; files {:?}", i, k, other, files(dir.path())), v) } } }
+                "checkstats" if !crate::want("C19") => {}
                 "checkstats" => { let (kd, st) = h.verif_dump();
                     // ground truth from the key directory: live count per file
                     let mut live: BTreeMap<u64, u64> = BTreeMap::new();
@@ -712,6 +798,7 @@ fn main() {
             println!("{{\"found\": false}}");
         }
         Some("conn-search") => conn_search(),
+        Some("server-hostile") => server_hostile(),
         Some("server-search") => server_search(a.get(2).map(|s| s.parse().unwrap()).unwrap_or(0)),
         Some("decimal-search") => decimal_search(a.get(2).map(|s| s.parse().unwrap()).unwrap_or(200000)),
         Some("frame-one") => frame_one(&a[2], a.get(3).map(|s| s.parse().unwrap()).unwrap_or(0)),
